@@ -844,6 +844,26 @@ func runC17(e *Env) {
 			executed = append(executed, o)
 			step := len(executed) - 1
 			opTerm := c17OpTerm(in, o, msg)
+			// A message executed on a branch of state that is then DISCARDED (a governance proposal whose later message
+			// fails, a simulation, a mempool check) must leave no trace: the parameters and registrations read back
+			// through the keepers afterwards are the ones before.  (State kept outside the store - an in-memory copy of
+			// the parameters refreshed by the setter - survives the discarded branch and shows here.)
+			if e.Replay != nil || e.Chance(0.5) {
+				before, berr := c17Observe(a, ctx, in)
+				func() {
+					defer func() { _ = recover() }()
+					dry, _ := ctx.CacheContext()
+					if h := a.MsgServiceRouter().Handler(msg); h != nil {
+						_, _ = h(dry, msg)
+					}
+				}()
+				after, aerr := c17Observe(a, ctx, in)
+				e.Stats.Count("discarded-branch-probe")
+				if berr == nil && (aerr != nil || after != before) {
+					e.Stats.ImplFailures = append(e.Stats.ImplFailures, ImplFailure{Case: c, Step: step, Monitor: "message-on-discarded-branch-changed-stored-state",
+						Detail: "a " + o.Kind + " message executed on a branch that was never written changed what the keepers report afterwards"})
+				}
+			}
 			err := Try(ctx, func(cctx sdk.Context) error {
 				h := a.MsgServiceRouter().Handler(msg)
 				if h == nil {
